@@ -87,3 +87,54 @@ def guard_pol(e: Effect, needle: str) -> Optional[bool]:
         if g == f"not {needle}":
             return False
     return None
+
+
+# ----------------------------------------------------------------------------- decoder DATA branch
+def data_branch_emissions(p: Program):
+    """For every path of MultipartDecoder.next_event in the DATA state that emits a Data event:
+    (path, emitted-prefix bound, deleted-prefix bound, more_data truth, no_complete_boundary_buffered, node, fn, collector)."""
+    from ..collect import callee_is, run_paths
+    from ..flow import NONE, subterms
+
+    dec = p.cls("baize.multipart:MultipartDecoder")
+    ne = dec.methods.get("next_event")
+    if ne is None:
+        raise AnalysisError("MultipartDecoder.next_event vanished")
+    BUF = ("attr", ("param", "self"), "buffer")
+    paths, col, it = run_paths(p, ne, dec, inline=lambda fi: False)
+    out = []
+
+    def truth_of(v, pa):
+        if v[0] == "const":
+            return bool(v[1])
+        if (v, True) in pa.facts:
+            return True
+        if (v, False) in pa.facts:
+            return False
+        if v[0] == "not":
+            t = truth_of(v[1], pa)
+            return None if t is None else not t
+        return None
+
+    for pa in paths:
+        if not any(t and f[0] == "cmp" and f[1] == "Eq" and f[2] == ("attr", ("param", "self"), "state") and f[3][0] == "attr" and f[3][2] == "DATA" for f, t in pa.facts):
+            continue
+        datas = [e for e in pa.events if e.kind == "call" and callee_is(e.a, "Data") and e.a[0] == "cls"]
+        dels = [e for e in pa.events if e.kind == "delete" and e.a[0] == "sub" and e.a[1] == BUF]
+        if not datas:
+            continue
+        kw = dict(datas[0].c)
+        dv, mv = kw.get("data"), kw.get("more_data")
+        emit_bound = del_bound = None
+        if dv is not None:
+            for t in subterms(dv):
+                if t[0] == "sub" and t[1] == BUF and t[2][0] == "slice" and t[2][1] == NONE:
+                    emit_bound = t[2][2]
+        if dels:
+            dk = dels[0].a[2]
+            del_bound = dk[2] if dk[0] == "slice" and dk[1] == NONE else None
+        more = truth_of(mv, pa) if mv is not None else None
+        no_boundary = any(t and f[0] == "cmp" and f[1] == "Eq" and f[3] == ("const", -1) and f[2][0] == "call" and f[2][1][0] == "attr" and f[2][1][2] == "find" for f, t in pa.facts)
+        node, fnn = col.nodes[datas[0].tag]
+        out.append((pa, emit_bound, del_bound, more, no_boundary, node, ne, bool(dels)))
+    return out, len(paths)
